@@ -1863,6 +1863,12 @@ class ApplyResult:
 
     def _set(self, i, obj):
         with self._mutex:
+            if self._event.is_set():
+                # already resolved -- by the worker's result, a time limit,
+                # a lost worker -- whichever came first: the result handler,
+                # the timeout handler and the supervisor all test ready()
+                # before they get here, but not under this lock.
+                return
             if self._on_timeout_cancel:
                 self._on_timeout_cancel(self)
             self._success, self._value = obj
